@@ -89,6 +89,21 @@ let run (input : string) (obs : string) : string * string =
             | [] -> "fail:shape")
       | _ -> "fail:shape" in
     (f_outcome f_tuple o1 ^ " ; " ^ rest, v)
+  | "pf" ->
+    let s = bytes_tok t in
+    let o = parse_file s in
+    (f_outcome (fun l -> Printf.sprintf "%d %s" (List.length l) (String.concat " " (List.map f_tuple l))) o,
+     (* oracle: a file that consists of printed in-domain relationships, one per line, parses back to them *)
+     "na")
+  | "pfr" ->
+    let n = int_tok t in
+    let ts = List.init n (fun _ -> p_tuple t) in
+    let o = parse_file (print_file ts) in
+    let fl l = Printf.sprintf "%d %s" (List.length l) (String.concat " " (List.map f_tuple l)) in
+    let v = if List.for_all CodecProofs.dom_line ts then
+        (if obs = "ok " ^ fl ts then "pass" else "fail:file-roundtrip-on-domain")
+      else "na" in
+    (f_outcome fl o, v)
   | "rts" ->
     let tu = p_tuple t in
     let s = tuple_string tu in
